@@ -178,6 +178,9 @@ def bmph(fn, props, reach=NOEXC, replace=(), **kw):
     G('bmph.' + fn, props, 'bmph', fn, replace=list(replace), reach=reach, replay=BMP_REPLAY, **kw)
 EXC2 = ['normal exit', 'exceptional exit']
 bmph('ImageHeader_IsValidBitCount', ['C08', 'C11']); bmph('ImageHeader_IsIndexedImage', ['C08', 'C11'])
+bmph('BitmapFile_WritePixels', ['C08'], reach=EXC2, replace=['Wr_Write', 'vec_u8_ctor_fill', 'ImageHeader_CalculatePitch', 'ImageHeader_CalcPixelByteWidth'], loop_contracts=False, flags=['--unwind', '5', '--unwinding-assertions', '--object-bits', '12'],
+     bounded='bitmaps of at most 3 rows (width, depth and pixel bytes symbolic)', timeout=600, trusted=[WR_TRUST, 'std::vector<uint8_t>(n, 0) as an assumed abstract contract'],
+     what='bounded stand-in: pixel section = rows padded with zeros to the pitch, total pitch * |height| bytes')
 bmph('ImageHeader_VerifyValidBitCount', ['C08', 'C11'], reach=EXC2, replace=['ImageHeader_IsValidBitCount'])
 bmph('ImageHeader_CalcPixelByteWidth', ['C08', 'C11']); bmph('ImageHeader_CalculatePitch', ['C08', 'C11'], replace=['ImageHeader_CalcPixelByteWidth'])
 bmph('ImageHeader_CalcMaxIndexedPaletteSize', ['C08', 'C11'], reach=EXC2, replace=['ImageHeader_IsIndexedImage'])
@@ -213,6 +216,12 @@ sprh('PaletteHeader_ctor', ['C10', 'C18'], replace=['SectionHeader_ctor0'])
 sprh('PaletteHeader_CreatePaletteHeader', ['C10', 'C18'], replace=['SectionHeader_ctor2', 'PaletteHeader_ctor'])
 sprh('PaletteHeader_Validate', ['C10', 'C11'], reach=EXC2, replace=['SectionHeader_Validate', 'SectionHeader_TotalLength'])
 sprh('ArtFile_VerifyImageIndexInBounds', ['C11'], reach=EXC2)
+RA_R = RD + ['Rd_ReadU32T', 'vec_Animation_resize', 'ArtFile_ReadAnimation_U', 'ArtFile_VerifyCountsMatchHeader_U']
+RA_T = [KR_TRUST, 'ReadAnimation, VerifyCountsMatchHeader (CountFrames) and vector resize as assumed abstract contracts; Animation is an opaque placeholder in this unit (only moved)']
+sprh('ArtFile_ReadAnimations', ['C10', 'C11'], reach=EXC2, replace=RA_R, trusted=RA_T, defines=['OP2_RA_LIGHT'], flags=['--object-bits', '12'], timeout=600,
+     what='animation section on arbitrary bytes: memory safe (all generated checks); every normal return has run the count verification')
+G('sprh.ArtFile_ReadAnimations.content', ['C10', 'C11'], 'sprh', 'ArtFile_ReadAnimations', reach=EXC2, replace=RA_R, trusted=RA_T + ['generated pointer checks are OFF in this group (decided by sprh.ArtFile_ReadAnimations on the same extracted body)'],
+  flags=['--object-bits', '12'], timeout=600, no_standard_checks=True, what='the count verification receives exactly the totals the section header announces; the table has the announced number of entries')
 sprh('ArtFile_ValidateImageMetadata', ['C10', 'C11'], reach=EXC2)
 
 # ---- C18: relational (two-run) determinism checks of every record constructor
